@@ -227,6 +227,19 @@ Definition chan_eqb (a b : chan) : bool :=
   | _, _ => false
   end.
 
+(* owners of channels *)
+Inductive owner := UOwner (u : nat) | NOwner (n : nat).
+
+Definition owner_eqb (a b : owner) : bool :=
+  match a, b with
+  | UOwner u, UOwner u' => Nat.eqb u u'
+  | NOwner n, NOwner n' => Nat.eqb n n'
+  | _, _ => false
+  end.
+
+Definition same_set (a b : list owner) : bool :=
+  subsetb owner_eqb a b && subsetb owner_eqb b a.
+
 Section Model.
   Variable val : Type.
   Variable pyop : pyfun -> list val -> val + string.   (* CPython: value or exception class *)
@@ -253,9 +266,13 @@ Section Model.
     s_users : list urec;
     s_nodes : list nrec;          (* injected nodes in creation order; with a parent these
                                      are parent.children beyond the user nodes, keyed by label *)
-    s_wfcache : bool }.           (* the parent's own input cache is valid: parent.run() has
-                                     succeeded and no child was added since (the parent's inputs,
-                                     i.e. the children's unconnected inputs, never change here) *)
+    s_wfcache : option (list owner) }.
+      (* the parent's own input cache (the parent is a cached node too).  Its inputs are the
+         children's unconnected inputs under keys "<child label>__<channel>"; their values never
+         change here, but run_data_tree temporarily renames every node of the pulled data tree
+         (label + id) and the dict is recorded during that renaming.  So the cache is identified by
+         WHICH value-holding children were in the data tree of the last successful pull.
+         None = never ran, or a child was added since (Composite.add_child resets it). *)
 
   Definition nchildren (st : state) : nat :=
     if s_parent st then List.length (s_users st) + List.length (s_nodes st) else 0.
@@ -419,7 +436,7 @@ Section Model.
         let ins := (if q_inject_self q then [OC (q_self q)] else []) ++ q_others q in
         let st1 := mkS (s_parent st) (s_users st)
                        (s_nodes st ++ [mkN l (q_cls q) ins None false])
-                       false in    (* Composite.add_child resets the parent's cache *)
+                       None in     (* Composite.add_child resets the parent's cache *)
         (* autorun=True: run(), a ReadinessError is suppressed, anything else escapes *)
         match run_own st1 n with
         | (st2, RRaise x) => (st2, n, Raised x)
@@ -463,30 +480,62 @@ Section Model.
 
   Inductive pres := PVal (v : val) | POwn (x : string) | PUp.
 
-  Definition set_cache (st : state) (c : bool) : state :=
+  Definition set_cache (st : state) (c : option (list owner)) : state :=
     mkS (s_parent st) (s_users st) (s_nodes st) c.
 
-  (* Node.pull = run_data_tree (through parent.run() when there is a parent -- which is itself a
-     cached node: if it ran successfully before and no child was added since, NOTHING upstream is
-     executed) and then the node's own run *)
-  Definition wf_cache_hit (st : state) : bool := s_parent st && s_wfcache st.
+  (* get_nodes_in_data_tree: the owners upstream of a channel (with repetitions) *)
+  Fixpoint tree_owners (fuel : nat) (st : state) (c : chan) : list owner :=
+    match fuel with
+    | O => []
+    | S f =>
+        match c with
+        | CU u _ => [UOwner u]
+        | CN m =>
+            match nth_error (s_nodes st) m with
+            | Some r => NOwner m :: flat_map (tree_owners f st) (operand_chans (n_in r))
+            | None => []
+            end
+        end
+    end.
 
-  (* run_data_tree of a node with record r: (state, did everything upstream succeed) *)
-  Definition pull_upstream (st : state) (r : nrec) : state * bool :=
-    if wf_cache_hit st then (st, true)          (* parent.run() is a cache hit: nothing runs *)
+  (* does the node own an unconnected input (user nodes always do; an injected node iff it has a
+     raw operand) *)
+  Definition has_value_input (st : state) (o : owner) : bool :=
+    match o with
+    | UOwner _ => true
+    | NOwner m =>
+        match nth_error (s_nodes st) m with
+        | Some r => existsb (fun o => match o with OR _ => true | OC _ => false end) (n_in r)
+        | None => false
+        end
+    end.
+
+  Definition pull_keys (st : state) (n : nat) : list owner :=
+    filter (has_value_input st) (tree_owners (S (List.length (s_nodes st))) st (CN n)).
+
+  (* Node.pull = run_data_tree (through parent.run() when there is a parent -- which is itself a
+     cached node: if it ran successfully before, no child was added since, and the renamed
+     value-holding children are the same, NOTHING upstream is executed) and then the node's own run *)
+  Definition wf_cache_hit (st : state) (keys : list owner) : bool :=
+    s_parent st && match s_wfcache st with Some k => same_set k keys | None => false end.
+
+  (* run_data_tree of node n with record r: (state, did everything upstream succeed) *)
+  Definition pull_upstream (st : state) (n : nat) (r : nrec) : state * bool :=
+    let keys := pull_keys st n in
+    if wf_cache_hit st keys then (st, true)          (* parent.run() is a cache hit: nothing runs *)
     else
       let fuel := S (List.length (s_nodes st)) in
       let '(st1, ok) :=
         fold_left (fun (acc : state * bool) c' => if snd acc then ensure fuel (fst acc) c' else acc)
                   (operand_chans (n_in r)) (st, true) in
       (* a successful parent.run() records the parent's inputs *)
-      (if ok && s_parent st then set_cache st1 true else st1, ok).
+      (if ok && s_parent st then set_cache st1 (Some keys) else st1, ok).
 
   Definition pull (st : state) (n : nat) : state * pres :=
     match nth_error (s_nodes st) n with
     | None => (st, PUp)
     | Some r =>
-        let '(st1, ok) := pull_upstream st r in
+        let '(st1, ok) := pull_upstream st n r in
         if ok then
           match run_own st1 n with
           | (st2, RVal v) => (st2, PVal v)
@@ -720,7 +769,7 @@ Section Model.
     end.
 
   Definition run_case (parent : bool) (users : list urec) (ss : list step) : obs :=
-    OL (exec (mkS parent users [] false) [] false ss).
+    OL (exec (mkS parent users [] None) [] false ss).
 
 End Model.
 
